@@ -96,6 +96,12 @@ func runC09(r *simkit.Run) {
 			r.Probe("replica-local-checktx")
 		}
 		ti := w.txOrdinary(weights)
+		if c.Chance(120, "hostile-transaction") {
+			// malformed / structurally invalid / outsider / replayed transactions: replicas must also
+			// answer those identically, error message included
+			ti = w.hostile()
+			r.Probe("hostile-transactions")
+		}
 		if c.Chance(700, "via-mempool") {
 			resp := w.chain.CheckTx(ti.Bytes)
 			r.Eventf("checktx tx#%d %s -> %d", ti.ID, ti.Desc, resp.Code)
